@@ -1523,3 +1523,22 @@ package stun
 //@   ensures old(haskey(c.t, event.TransactionID)) && !Completes(c, event) && gmap(ag_errt)[old(ghost(ag_n))] == 0 ==> Writes(1) && Wrote(old(ghost(wr_n)), old(c.t[event.TransactionID].raw))
 //@   ensures old(haskey(c.t, event.TransactionID)) && !Completes(c, event) && NoEvent() ==> c.t[event.TransactionID].attempt == old(c.t[event.TransactionID].attempt) + 1 && Writes(1) && gmap(wr_errt)[old(ghost(wr_n))] == 0
 //@   ensures old(haskey(c.t, event.TransactionID)) && NoEvent() ==> bytes_eq_old(c.t[event.TransactionID].raw, c.t[event.TransactionID].raw) && c.t[event.TransactionID].rto == old(c.t[event.TransactionID].rto)
+
+// reader goroutine body (C12): every datagram is read into a buffer of at least 1024 bytes and, if it decodes, handed to
+// the agent; undecodable datagrams are skipped. Process runs the handlers synchronously: it may change anything the
+// handlers can reach, but it is assumed not to re-seat the client's connection/agent nor the reader's buffer.
+//@ func (*Client).readUntilClosed->ClientAgent.Process(a, m)
+//@   requires m != nil
+//@   assigns everything
+//@   allocates
+//@   ensures c.c == old(c.c) && c.a == old(c.a) && region(m.Raw) == old(region(m.Raw)) && cap(m.Raw) == old(cap(m.Raw)) && off(m.Raw) == old(off(m.Raw))
+//@ func (*Client).readUntilClosed
+//@   safety C12 C15
+//@   props C12
+//@   requires c != nil && c.c != nil && c.a != nil
+//@   assigns everything
+//@   allocates
+//@   ensures ghost(wg_dones) == old(ghost(wg_dones)) + 1
+//@   loop 0
+//@     assigns everything
+//@     invariant c.c != nil && c.a != nil && m != nil && fresh(m) && cap(m.Raw) >= 1024 && len(m.Raw) <= cap(m.Raw) && region(m.Raw) != 0 && ghost(wg_dones) == old(ghost(wg_dones))
